@@ -18,5 +18,7 @@ from tracer import pcstep
 pcstep.ensure_built()
 from models import selfcheck
 selfcheck.run_all()
-print("setup ok")
 PY
+# machinery self-test: crashes and hangs of the executor are attributed to the right program
+VERIF_HANG_S=3 python3 tools/selftest_execpool.py
+echo "setup ok"
